@@ -153,7 +153,7 @@ CLAIMS = {
          "refuse with TypeError without running. Tie: ~550 single-field corruptions x array kinds incl. "
          "ragged sub-arrays run against implementation and model (open result of Array, darr.open, "
          "RaggedArray; by-path refusal with byte snapshots); key/type tables regenerated from source.",
-         "Coq proof over an executable model of descriptor validation + in-Coq differential evaluation over enumerated corruptions",
+         "Coq proof over an executable model of descriptor validation, its size test proved equal to the test translated from source + in-Coq differential evaluation over enumerated corruptions",
          "6.C18"),
  'C06': ("kernel-checked over Readcode.v, whose type / byte-order / language tables and both documented "
          "compatibility tables are REGENERATED from darr/readcodearray.py and docs/readcode.rst on every run: for "
